@@ -12,11 +12,14 @@ import (
 	"reflect"
 	"sync"
 
+	"github.com/cosmos/cosmos-proto/anyutil"
 	"github.com/cosmos/cosmos-proto/zzverif/glue"
 	"google.golang.org/protobuf/encoding/protojson"
 	"google.golang.org/protobuf/encoding/prototext"
 	"google.golang.org/protobuf/proto"
 	"google.golang.org/protobuf/reflect/protoreflect"
+	"google.golang.org/protobuf/reflect/protoregistry"
+	"google.golang.org/protobuf/types/known/anypb"
 )
 
 func init() { engines["conc"] = engineConc }
@@ -109,9 +112,26 @@ func concOps() []concOp {
 			return fmt.Sprintf("%x", SpecEncode(quietF32(Canon(ReflToIR(slowView(m))))))
 		}},
 		{"CheckInitialized", func(m, _ proto.Message) string { return fmt.Sprint(proto.CheckInitialized(m) == nil) }},
+		{"anyutil.Unpack(shared Any, both resolver paths)", func(m, _ proto.Message) string {
+			// a shared Any holding the value: unpacked through the type registry and through the file registry
+			a := concAny
+			if a == nil {
+				return ""
+			}
+			u1, e1 := anyutil.Unpack(a, nil, nil)
+			u2, e2 := anyutil.Unpack(a, nil, concEmptyTypes)
+			if e1 != nil || e2 != nil {
+				return fmt.Sprint(e1, e2)
+			}
+			return fmt.Sprintf("%x %x", SpecEncode(quietF32(Canon(ReflToIR(u1.ProtoReflect())))), SpecEncode(quietF32(Canon(ReflToIR(u2.ProtoReflect())))))
+		}},
 		{"struct-read", func(m, _ proto.Message) string { return fmt.Sprintf("%x", SpecEncode(Canon(StructToIR(m)))) }},
 	}
 }
+
+// the Any shared by the readers of the current round (written before the goroutines are released)
+var concAny *anypb.Any
+var concEmptyTypes = new(protoregistry.Types)
 
 func engineConc(rep *Report) {
 	subs := allSubjects()
@@ -187,6 +207,7 @@ func engineConc(rep *Report) {
 					}
 					return out
 				}
+				concAny = &anypb.Any{TypeUrl: "/" + tn, Value: SpecEncode(v)}
 				viewRes := make([]string, G)
 				results := make([][]string, G)
 				panics := make([]string, G)
